@@ -49,6 +49,42 @@ VHasType(ty, vv) ==
 Share(ty, vv, r0, r1) == <<r0, r1, VSub(ty, VSub(ty, vv, r0), r1)>>
 Reveal(ty, sh) == VAdd(ty, VAdd(ty, sh[1], sh[2]), sh[3])
 
+(***************************************************************************)
+(* Byte layout of values and re-typing (get_result_util.rs:100-125).        *)
+(* get_evaluator_result accepts, for a graph input of type (gt, gt, gt), a  *)
+(* plain value declared with ANOTHER type dt of the same layout (an i32 for *)
+(* a graph taking 32 bits, ...): the value is re-read as a gt and it is     *)
+(* THAT value, in the rings of gt, which must be shared and reconstructed.  *)
+(* Leaves are little-endian, elements back to back; bits are packed         *)
+(* LSB-first, eight per byte.  No recursion over the elements (arrays of    *)
+(* hundreds of elements are judged).                                        *)
+(***************************************************************************)
+SLeafBits(ty) == SNumEl(ty) * SBits(ty.st)
+LeafBytes(ty, vv) ==
+  IF ty.st = "b"
+  THEN [jj \in 1..((Len(vv) + 7) \div 8) |->
+          LET bitAt(ii) == IF 8 * (jj - 1) + ii <= Len(vv) THEN vv[8 * (jj - 1) + ii][1] * Pow2Tab[ii] ELSE 0
+          IN bitAt(1) + bitAt(2) + bitAt(3) + bitAt(4) + bitAt(5) + bitAt(6) + bitAt(7) + bitAt(8)]
+  ELSE LET nb == NLimbs(SBits(ty.st)) IN
+       [jj \in 1..(Len(vv) * nb) |-> vv[((jj - 1) \div nb) + 1][((jj - 1) % nb) + 1]]
+LeafFromBytes(ty, bs) ==
+  IF ty.st = "b" THEN [ee \in 1..SNumEl(ty) |-> <<LBit(bs, ee - 1)>>]
+  ELSE LET nb == NLimbs(SBits(ty.st)) IN
+       [ee \in 1..SNumEl(ty) |-> [ii \in 1..nb |-> bs[(ee - 1) * nb + ii]]]
+\* a value declared as dt may stand for a gt: same tree, every leaf with the same number of bits
+RECURSIVE SameLayout(_, _)
+SameLayout(dt, gt) ==
+  IF SIsLeaf(dt) \/ SIsLeaf(gt) THEN SIsLeaf(dt) /\ SIsLeaf(gt) /\ SLeafBits(dt) = SLeafBits(gt)
+  ELSE LET cd == SComps(dt)
+           cg == SComps(gt) IN Len(cd) = Len(cg) /\ \A ii \in 1..Len(cd) : SameLayout(cd[ii], cg[ii])
+\* the value of type gt that has the bytes of the value vv of type dt
+RECURSIVE Reinterp(_, _, _)
+Reinterp(dt, gt, vv) ==
+  IF dt = gt THEN vv
+  ELSE IF SIsLeaf(dt) THEN TLCEval(LeafFromBytes(gt, LeafBytes(dt, vv)))
+  ELSE LET cd == SComps(dt)
+           cg == SComps(gt) IN [ii \in 1..Len(cd) |-> Reinterp(cd[ii], cg[ii], vv[ii])]
+
 \* parties and slots are numbered 0..2; slot s is position s+1 of a three-tuple
 Genuine(pp) == {pp, (pp + 1) % 3}
 JunkSlot(pp) == (pp + 2) % 3
